@@ -265,6 +265,8 @@ static void lean_report(void) {
     if (n < lean_log_off) lean_log_off = 0;
     out(","); out_bytes("logdelta", b ? b + lean_log_off : (unsigned char *)"", b ? n - lean_log_off : 0); lean_log_off = n; free(b);
     drain_sock(s_devlog, &a_devlog); drain_sock(s_sock, &a_sock);
+    /* the harness is the only reader of these sinks: keep them from filling up (a full pty would block the writer) */
+    drain_fd(p_out[0], &a_out); drain_fd(p_err[0], &a_err); drain_fd(pty_m, &a_pty); a_out.n = a_err.n = a_pty.n = 0;
     out(","); out_bytes("devlogdelta", a_devlog.p ? a_devlog.p + lean_devlog_off : (unsigned char *)"", a_devlog.n - lean_devlog_off); lean_devlog_off = a_devlog.n;
     out(","); out_bytes("sockdelta", a_sock.p ? a_sock.p + lean_sock_off : (unsigned char *)"", a_sock.n - lean_sock_off); lean_sock_off = a_sock.n;
 }
